@@ -142,7 +142,7 @@ def r3_remainder_exempt(ctx):
             for x, y in ((sa, sb), (sb, sa)):
                 idx = bool(set(L["item_locals"]) & x["locals"]) or L["item_local"] in x["locals"]
                 ynames = {(callee_of(f.term(b)) or {}).get("name") for b in y["calls"]}
-                last = "len" in ynames and 1 in slice_const_ints(y)
+                last = "len" in ynames and 1 in (slice_const_ints(y) | slice_const_ints(x))
                 if not (idx and last):
                     continue
                 for c in f.bool_checks_of_local(cs["local"]):
